@@ -19,6 +19,7 @@ class.  What is emitted:
 import ast
 
 from .pyexpr import TieBroken, find_class, find_func, strip_doc, sha
+from .normalize import parse_file, parse as norm_parse
 
 SRC = 'bobocep/cep/engine/receiver/validator.py'
 SRC_RECV = 'bobocep/cep/engine/receiver/receiver.py'
@@ -158,7 +159,7 @@ def _schema(cls):
 
 
 PROCESS_DATA = [
-    "if not self._validator.is_valid(data):\n    return None",
+    "if not self._validator.is_valid(data):\n    return",
     "if isinstance(data, BoboEvent):\n    event = data\nelse:\n    event = BoboEventSimple("
     "event_id=self._gen_event_id.generate(), timestamp=self._gen_timestamp.generate(), data=data)",
     "for subscriber in self._subscribers:\n    subscriber.on_receiver_update(event)",
@@ -188,16 +189,14 @@ def _imports_ok(tree):
 
 
 def translate(repo):
-    src = (repo / SRC).read_text()
-    tree = ast.parse(src)
+    src, tree = parse_file(repo, SRC)
     _imports_ok(tree)
     f_all = _all_validator(find_class(tree, 'BoboValidatorAll'))
     f_js, js_unwraps = _jsonable(find_class(tree, 'BoboValidatorJSONable'))
     f_ty, ty_unwraps, ty_any = _type(find_class(tree, 'BoboValidatorType'))
     f_sc, sc_unwraps, sc_base = _schema(find_class(tree, 'BoboValidatorJSONSchema'))
 
-    rsrc = (repo / SRC_RECV).read_text()
-    rtree = ast.parse(rsrc)
+    rsrc, rtree = parse_file(repo, SRC_RECV)
     pd = find_func(find_class(rtree, 'BoboReceiver'), '_process_data')
     got = [ast.unparse(s) for s in strip_doc(pd.body)]
     if got != PROCESS_DATA:
